@@ -7,8 +7,9 @@ Case layout (JSON-able)
     {"form": <operator form>, "args": {...}, "sub": S,
      "src": {"kind": "cold"|"hot"|"sync", "tl": timeline}, ["src2": {...same...} | {"kind": "iter", "vals": [payload..]}],
      ["resub": {"mode": "after"|"overlap"|"dispose", "d": k}]}
-resub (cold/sync sources only): the SAME built observable is subscribed a second time -- after every source
-terminated (+1+d ticks), overlapping at S+1+d, or at S+d right after disposing the first subscription -- and the
+resub: the SAME built observable is subscribed a second time -- after every source terminated (+1+d ticks; cold/sync
+only), overlapping at S+1+d, or at S+d right after disposing the first subscription (for hot sources the tick is clamped
+below the hot terminal and the second subscription sees the hot events after its own tick) -- and the
 same oracle is applied to the second probe with its own subscribe tick (signature suffix ":2nd-subscription").
 
 Timeline payloads are value names (vlib.values) or structured payloads
@@ -104,25 +105,31 @@ def effective_sub(specs, sub):
     return max(s, 0)
 
 
+def seen_at(spec, s):
+    """What a subscription made at tick s receives: (elems=[(abs_tick, payload)], term=(abs_tick, kind, tag|None))."""
+    tl = spec["tl"]
+    if spec["kind"] == "hot":
+        seen = [[t + 1, k, p] for t, k, p in tl if t + 1 > s]
+    else:
+        seen = [[t + s, k, p] for t, k, p in tl]
+    if not seen or seen[-1][1] not in ("C", "E"):
+        raise HarnessError("hot terminal not after subscription")
+    return [(m[0], m[2]) for m in seen[:-1]], (seen[-1][0], seen[-1][1], seen[-1][2])
+
+
 def make_source(lab, spec, s_eff, name):
     """Returns (observable, elems=[(abs_tick, payload)], term=(abs_tick, kind, tag|None))."""
     tl = spec["tl"]
     _check_tl(tl)
     kind = spec["kind"]
     if kind == "hot":
-        abs_tl = [[t + 1, k, p] for t, k, p in tl]
-        o = DHot(lab, abs_tl, name)
-        seen = [m for m in abs_tl if m[0] > s_eff]
+        o = DHot(lab, [[t + 1, k, p] for t, k, p in tl], name)
     elif kind in ("cold", "sync"):
         o = DCold(lab, tl, name, sync=(kind == "sync"))
-        seen = [[t + s_eff, k, p] for t, k, p in tl]
     else:
         raise HarnessError(f"source kind {kind}")
     lab.sources.append(o)
-    if not seen or seen[-1][1] not in ("C", "E"):
-        raise HarnessError("hot terminal not after subscription")
-    elems = [(m[0], m[2]) for m in seen[:-1]]
-    term = (seen[-1][0], seen[-1][1], seen[-1][2])
+    elems, term = seen_at(spec, s_eff)
     return o, elems, term
 
 
@@ -131,11 +138,13 @@ def make_source(lab, spec, s_eff, name):
 
 
 def mk_pred(spec):
-    """None | "truthy" | {"m": m, "r": [residues]} -> predicate over any number of args."""
+    """None | "truthy" | "self" | {"m": m, "r": [residues]} -> predicate over any number of args."""
     if spec is None:
         return None
     if spec == "truthy":
         return lambda x, *rest: bool(x)
+    if spec == "self":  # non-bool result: the element itself, judged by truthiness like Python's filter/takewhile/any/all
+        return lambda x, *rest: x
     return hpred(spec["m"], spec["r"])
 
 
@@ -226,7 +235,7 @@ def run_case(case, build, oracle, extra_classes=None):
     second = None | ("obs", observable, elems2, term2) | ("iter", [payload..])
     """
     form, args = case["form"], case["args"]
-    lab = Lab()
+    lab = Lab("hist", tick_s=1.0) if case.get("clock") == "hist" else Lab()
     specs = [case["src"]]
     s2 = case.get("src2")
     if s2 is not None and s2["kind"] != "iter":
@@ -248,17 +257,21 @@ def run_case(case, build, oracle, extra_classes=None):
     rs = case.get("resub")
     p2 = None
     S2 = D = None
-    if rs is not None and all(sp["kind"] in ("cold", "sync") for sp in specs):
+    if rs is not None:
         p2 = lab.probe("p2")
-        last = max([term[0]] + ([second[3][0]] if second is not None and second[0] == "obs" else []))
-        if rs["mode"] == "after":
+        hot_T = [sp["tl"][-1][0] for sp in specs if sp["kind"] == "hot"]  # latest tick still before the hot terminal
+        mode = rs["mode"]
+        if mode == "after" and hot_T:
+            mode = "overlap"  # a hot source cannot be re-subscribed after it terminated
+        if mode == "after":
+            last = max([term[0]] + ([second[3][0]] if second is not None and second[0] == "obs" else []))
             S2 = last + 1 + rs["d"]
             lab.at(S2, lambda: p2.subscribe(out))
-        elif rs["mode"] == "overlap":
-            S2 = S + 1 + rs["d"]
+        elif mode == "overlap":
+            S2 = max(S, min([S + 1 + rs["d"]] + hot_T))
             lab.at(S2, lambda: p2.subscribe(out))
-        elif rs["mode"] == "dispose":
-            S2 = D = S + rs["d"]
+        elif mode == "dispose":
+            S2 = D = max(S, min([S + rs["d"]] + hot_T))
 
             def _swap():
                 p.dispose()
@@ -282,6 +295,10 @@ def run_case(case, build, oracle, extra_classes=None):
         cls.append("hot-missed-prefix")
     if exp0 and exp0[-1][1] != "N" and exp0[-1][0] < term[0]:
         cls.append("ends-before-source")
+    if case.get("clock") == "hist":
+        cls.append("clock:hist")
+    if args.get("p") == "self":
+        cls.append("pred:nonbool")
     if extra_classes:
         cls += extra_classes(case, elems, term)
     if lab.escaped is not None:
@@ -309,13 +326,12 @@ def run_case(case, build, oracle, extra_classes=None):
     if clause is not None:
         return FAIL(f"{clause}|{form}", f"case={case} S={S} expected={alts[0]} got={p.trace()}", classes=cls)
     if p2 is not None:
-        cls.append("resub:" + rs["mode"])
-        sh = S2 - S
-        elems_b = [(t + sh, pl) for t, pl in elems]
-        term_b = (term[0] + sh, term[1], term[2])
+        cls.append("resub:" + mode + (":hot" if hot_T else ""))
+        elems_b, term_b = seen_at(case["src"], S2)
         second_b = second
         if second is not None and second[0] == "obs":
-            second_b = ("obs", second[1], [(t + sh, pl) for t, pl in second[2]], (second[3][0] + sh, second[3][1], second[3][2]))
+            e2b, t2b = seen_at(s2, S2)
+            second_b = ("obs", second[1], e2b, t2b)
         alts_b, _ = oracle(form, args, elems_b, term_b, S2, second_b)
         okg, msg = p2.grammar_ok()
         if not okg:
@@ -381,12 +397,17 @@ def draw_sub(draw, *srcs):
 
 
 def draw_resub(draw, *srcs):
-    """~1/3 of the cold/sync cases: subscribe the same observable a second time."""
-    if any(s is not None and s.get("kind") == "hot" for s in srcs):
-        return None
+    """~1/3 of the cases: subscribe the same observable a second time (hot sources: overlapping / after dispose only)."""
+    hot = any(s is not None and s.get("kind") == "hot" for s in srcs)
     if draw(st.integers(0, 2)) != 0:
         return None
-    return {"mode": draw(st.sampled_from(["after", "overlap", "dispose"])), "d": draw(st.integers(0, 6))}
+    modes = ["overlap", "dispose"] if hot else ["after", "overlap", "dispose"]
+    return {"mode": draw(st.sampled_from(modes)), "d": draw(st.integers(0, 6))}
+
+
+def draw_clock(draw):
+    """About 1/8 of the cases run on HistoricalScheduler (datetime clock, 1 tick = 1 s)."""
+    return draw(st.sampled_from([None] * 7 + ["hist"]))
 
 
 def draw_count(draw, n):
@@ -395,14 +416,14 @@ def draw_count(draw, n):
 
 def draw_pred(draw, allow_none=False):
     """Predicate spec: mostly-true / mostly-false / balanced hash predicates, truthiness, constants, absent."""
-    opts = ["h", "hi", "hi", "lo", "lo", "truthy", "all", "nonep"]
+    opts = ["h", "hi", "hi", "lo", "lo", "truthy", "self", "self", "all", "nonep"]
     if allow_none:
         opts.append("absent")
     c = draw(st.sampled_from(opts))
     if c == "absent":
         return None
-    if c == "truthy":
-        return "truthy"
+    if c in ("truthy", "self"):
+        return c
     m = draw(st.integers(2, 5))
     if c == "all":
         return {"m": m, "r": list(range(m))}
